@@ -1,0 +1,16 @@
+//go:build verif
+
+package bridgesync
+
+import (
+	logger "github.com/agglayer/aggkit/log"
+	aggkittypes "github.com/agglayer/aggkit/types"
+	"github.com/ethereum/go-ethereum/common"
+)
+
+// VerifC20SetClaimCalldata exposes (*Claim).setClaimCalldata (trace -> claim details extraction) to the
+// verification harness: the caller supplies the RPC client, the bridge address, the tx hash and the claim.
+func VerifC20SetClaimCalldata(client aggkittypes.RPCClienter, bridge common.Address, txHash common.Hash,
+	claim *Claim, log *logger.Logger) error {
+	return claim.setClaimCalldata(client, bridge, txHash, log)
+}
